@@ -158,6 +158,9 @@ def check_seq(ctx, seq, shapes=SHAPES, share=False):
             ctx.violation(_classify(got, want, deps), "get_dependencies() in shape %s is not the reference resolution" % shape, w)
             return False
         raw = root.get_dependencies(dedup=False)
+        if isinstance(root, ht.Tag) and not same_ids(root.get_dependencies(False), raw):
+            ctx.violation("dedup-false-not-document-order", "Tag.get_dependencies(False) (positional) differs from dedup=False", w)
+            return False
         if not same_ids(raw, deps):
             ctx.violation("dedup-false-not-document-order", "get_dependencies(dedup=False) in shape %s dropped or reordered" % shape, w)
             return False
